@@ -147,13 +147,19 @@ impl CacheKey for RowIdIndexKey {
 #[derive(Debug)]
 pub struct RowIdSequenceKey {
     pub fragment_id: u64,
+    /// Identifies the stored sequence itself. Fragment ids are reused (for example
+    /// an overwrite starts again at fragment 0), so the id alone must not be the key.
+    pub sequence_hash: u64,
 }
 
 impl CacheKey for RowIdSequenceKey {
     type ValueType = RowIdSequence;
 
     fn key(&self) -> Cow<'_, str> {
-        Cow::Owned(format!("row_id_sequence/{}", self.fragment_id))
+        Cow::Owned(format!(
+            "row_id_sequence/{}/{:x}",
+            self.fragment_id, self.sequence_hash
+        ))
     }
 }
 
